@@ -18,8 +18,9 @@ from harness.tables import walk
 
 PID = "C07"
 NAMES = ["a", "b", "item", "para", "el.dot", "el-dash", "el_us", "n2", "title", "eml"]
-PREFIXES = ["p", "q", "x-y", "ns1"]
-URIS = ["urn:one", "urn:two", "http://example.org/ns#x", "http://u/?a=1&b=2", "urn:x:it's", "http://u/p?q='1'&r=(2)"]   # valid URI references (lxml refuses others)
+PREFIXES = ["p", "q", "x-y", "ns1", "xsi", "s"]
+URIS = ["urn:one", "urn:two", "http://example.org/ns#x", "http://u/?a=1&b=2", "urn:x:it's", "http://u/p?q='1'&r=(2)",
+        "http://www.w3.org/2001/XMLSchema-instance", "https://eml.ecoinformatics.org/eml-2.2.0"]   # valid URI references (lxml refuses others)
 SPECIALS = ["<", ">", "&", '"', "'", "]]>", "é", "漢字", "😀", "&amp;", "&#38;", "<!--", "-->", "<?x?>", "\\", "\x85", " ", "�", "a b",
             "{0}", "{id}", "}", "{", "{{x}}", "%s", "%(a)s", "$1", "\\1", "&quot;", "&apos;", "&nbsp;", "&copy;", "&#x26;", "&;", "&amp", "&lt", "%26", "<![CDATA[", "&#0;"]     # text that merely SPELLS a reference
 
